@@ -161,11 +161,11 @@ Proof.
   intros E. unfold susc_part_value, susc_terms_eval. cbn [so_terms so_zero].
   change (fun t : term K K => susc_term_eval K NO (snd t) (fst t) z) with (fzs z).
   rewrite susc_part_eval_char, E, s_kept_sum, s_zero_sum. fold (z_is_zero z).
-  destruct (z_is_zero z).
-  - rewrite BS_scale_r, <- BS_plus. apply BS_ext. intros s _. destruct s as [w P|[|] t]; cbn [contrib]; ring.
+  destruct (z_is_zero z) eqn:Z.
+  - rewrite BS_scale_r, <- BS_plus. apply BS_ext. intros s _. destruct s as [w P|[|] t]; cbn [contrib]; rewrite ?Z; ring.
   - transitivity (kadd (bsum raw (fun s => match s with STerm _ true t => fzs z t | _ => k0 end)) (bsum raw (fun _ => k0))).
     { rewrite (bigsum_zero K k0 k1 kadd kmul ksub kopp Kr raw (fun _ => k0)) by reflexivity. ring. }
-    rewrite <- BS_plus. apply BS_ext. intros s _. destruct s as [w P|[|] t]; cbn [contrib]; ring.
+    rewrite <- BS_plus. apply BS_ext. intros s _. destruct s as [w P|[|] t]; cbn [contrib]; rewrite ?Z; ring.
 Qed.
 
 Section ExactForm.
@@ -220,7 +220,8 @@ Proof.
   unfold susc_part_value in V. cbn [so_terms so_zero] in V. apply V.
   unfold susc_add_terms.
   rewrite (termlist_exact_total K K _ _ _ Hcmp K k0 k1 kadd kmul ksub kopp Kr (fzs z)).
-  unfold eval at 1. cbn [fold_left]. unfold eval. rewrite BS_fold. ring.
+  unfold eval at 1. cbn [fold_left]. unfold eval. rewrite BS_fold. unfold gterm in *.
+  generalize (bsum (s_kept K raw) (fzs z)). intros a. ring.
 Qed.
 
 Corollary susc_part_exact_fixed lenient inp (W : part_wf K inp) beta z :
